@@ -145,7 +145,7 @@ def whole_invocation_stage(ctx, scratch, quick):
             if res["exp"] is None:
                 # mixed kinds: the expected output is the specification's, evaluated by coqc
                 res["exp"] = mu.prog_spec_stdout(os.path.join(vlib.CACHE, "cases", PROP, "pexp"), cases[k]) or b""
-                res["exp_nums"] = None
+                res["exp_nums"] = mu.prog_spec_nums(os.path.join(vlib.CACHE, "cases", PROP, "pexp"), cases[k]) if inp["summary"] else None
                 res["exp_from_spec"] = True
             if code >= 1000:
                 at = code - 1000
@@ -160,6 +160,8 @@ def whole_invocation_stage(ctx, scratch, quick):
             extra = dict(spec_code=code)
             if res.get("exp_from_spec"):
                 extra["expected_stdout_bytes"] = res["exp"]
+                if res["exp_nums"]:
+                    extra["expect_summary"] = res["exp_nums"]
             ctx.failure(mu.prog_save_failure(PROP, ctx.seed, inp, res["plan"], fail_n, extra=extra), exp_d, got_d)
             if k not in py_fail and not res.get("exp_from_spec"):
                 ctx.obligation_broken("oracle", "Program.program_spec (Coq) and the python rendering disagree on a whole invocation",
